@@ -240,7 +240,10 @@ class DeprecatedOptions:
         def _opt_defined(opt):
             if opt.orig_type == BOOL and opt.str_value != "n":
                 return True
-            elif opt.orig_type in (INT, STRING, HEX, FLOAT) and opt.str_value != "":
+            elif opt.orig_type == STRING and opt.config_string:
+                # "" is a value too: the option itself is defined (as "") whenever it is written out
+                return True
+            elif opt.orig_type in (INT, HEX, FLOAT) and opt.str_value != "":
                 return True
             return False
 
